@@ -653,7 +653,7 @@ fn load_contracts(paths: &[String]) -> Contracts {
     c
 }
 
-fn substitute(text: &str, c: &Contracts) -> String {
+fn substitute(text: &str, c: &Contracts, remap: &HashMap<(String, usize), Option<usize>>) -> String {
     // replace marker identifiers (optionally followed by " ;") with contract text or nothing
     let m = &c.text;
     let mut out = String::new();
@@ -662,8 +662,23 @@ fn substitute(text: &str, c: &Contracts) -> String {
         out.push_str(&rest[..pos]);
         let tail = &rest[pos..];
         let end = tail.find(|c: char| !(c.is_alphanumeric() || c == '_')).unwrap_or(tail.len());
-        let id = &tail[..end];
+        let id_actual = &tail[..end];
         let mut after = &tail[end..];
+        // degraded matching: the marker carries the actual loop ordinal; look the text up under the contract ordinal paired with it
+        let mut id_owned = id_actual.to_string();
+        for pre in ["__vx_inv_", "__vx_bs_", "__vx_be_", "__vx_pre_", "__vx_post_", "__vx_lattr_"] {
+            if let Some(rest) = id_actual.strip_prefix(pre) {
+                if let Some(pos) = rest.rfind('_') {
+                    if let Ok(k) = rest[pos + 1..].parse::<usize>() {
+                        let f = rest[..pos].to_string();
+                        if let Some(m2) = remap.get(&(f.clone(), k)) {
+                            id_owned = match m2 { Some(ck) => format!("{}{}_{}", pre, f, ck), None => format!("{}{}_orphan", pre, f) };
+                        }
+                    }
+                }
+            }
+        }
+        let id: &str = id_owned.as_str();
         let is_stmt = ["__vx_anc_", "__vx_bs_", "__vx_be_", "__vx_pre_", "__vx_post_", "__vx_fs_"].iter().any(|p| id.starts_with(p));
         if is_stmt {
             let t = after.trim_start();
@@ -830,6 +845,7 @@ struct Opts {
     opaque: Vec<(String, String, String)>,
     fn_mono: Vec<(String, String, String)>,
     hoist: Vec<(String, String)>,
+    tolerant: bool,
     log: Option<String>,
     names: Vec<String>,
     mono: bool,
@@ -839,7 +855,7 @@ struct Opts {
 fn parse_args() -> Opts {
     let args: Vec<String> = std::env::args().collect();
     let mut o = Opts { src: String::new(), opdesugar: false, mapcollect: false, extendmap: true, tryinto: true, renames: vec![], contracts: vec![], stubs: vec![],
-        items: vec![], impl_filter: None, key_suffix: String::new(), opaque: vec![], fn_mono: vec![], hoist: vec![], log: None, names: vec![], mono: true, label: String::new() };
+        items: vec![], impl_filter: None, key_suffix: String::new(), opaque: vec![], fn_mono: vec![], hoist: vec![], tolerant: false, log: None, names: vec![], mono: true, label: String::new() };
     let mut i = 1;
     let split = |s: &String| -> Vec<String> { s.split(',').filter(|x| !x.is_empty()).map(|x| x.to_string()).collect() };
     while i < args.len() {
@@ -849,6 +865,7 @@ fn parse_args() -> Opts {
             "--mapcollect" => o.mapcollect = true,
             "--noextendmap" => o.extendmap = false,
             "--notryinto" => o.tryinto = false,
+            "--tolerant" => o.tolerant = true,
             "--nomono" => o.mono = false,
             "--renames" => { i += 1; o.renames = split(&args[i]); }
             "--contracts" => { i += 1; o.contracts.extend(split(&args[i])); }
@@ -945,7 +962,8 @@ fn item_name(item: &Item) -> Option<String> {
     match item { Item::Struct(s) => Some(s.ident.to_string()), Item::Enum(e) => Some(e.ident.to_string()), Item::Const(c) => Some(c.ident.to_string()), _ => None }
 }
 
-struct Ctx<'a> { o: &'a Opts, p: Passes, c: &'a Contracts, out: String, found: Vec<String>, loops: Vec<(String, usize, String, String, usize)>, errors: Vec<String> }
+struct Ctx<'a> { o: &'a Opts, p: Passes, c: &'a Contracts, out: String, found: Vec<String>, loops: Vec<(String, usize, String, String, usize)>, errors: Vec<String>,
+    remap: HashMap<(String, usize), Option<usize>>, degraded: Vec<String> }
 
 fn process_fn(cx: &mut Ctx, vis: &Visibility, sig: &Signature, block: &Block, in_trait_impl: bool) {
     let name = sig.ident.to_string();
@@ -1035,7 +1053,9 @@ fn process_fn(cx: &mut Ctx, vis: &Visibility, sig: &Signature, block: &Block, in
         headers: vec![],
     };
     a.visit_block_mut(&mut block);
-    for (_, sub, _, matched) in a.anchors.iter() { if !*matched { cx.errors.push(format!("ANCHOR-LOST text anchor '{}' in fn {}", sub, fkey)); } }
+    for (_, sub, _, matched) in a.anchors.iter() { if !*matched {
+        if cx.o.tolerant { cx.degraded.push(format!("{}\tlost-text-anchor\t{}", fkey, sub)); } else { cx.errors.push(format!("ANCHOR-LOST text anchor '{}' in fn {}", sub, fkey)); }
+    } }
     for (k, hdr, h, line) in a.headers.iter() {
         cx.loops.push((fkey.clone(), *k, hdr.clone(), h.clone(), *line));
         if let Some(exp) = cx.c.hdr_expect.get(&(fkey.clone(), *k)) {
@@ -1044,8 +1064,29 @@ fn process_fn(cx: &mut Ctx, vis: &Visibility, sig: &Signature, block: &Block, in
             if exp != h { cx.p.log.push(format!("HEADER-CHANGED fn {} loop {} expected @hdr={} found {} ({})", fkey, k, exp, h, hdr)); }
         }
     }
-    for ((f, k), _) in cx.c.hdr_expect.iter() { if *f == fkey && *k > a.counter { cx.errors.push(format!("ANCHOR-LOST fn {} has no loop {}", f, k)); } }
-    if let Some(n) = cx.c.loops_expect.get(&fkey) { if *n != a.counter { cx.errors.push(format!("ANCHOR-LOST fn {} has {} loops after the rewrite rules, the contract was written for {}", fkey, a.counter, n)); } }
+    let expected_n = cx.c.loops_expect.get(&fkey).cloned();
+    let count_changed = expected_n.map(|n| n != a.counter).unwrap_or(false)
+        || cx.c.hdr_expect.iter().any(|((f, k), _)| *f == fkey && *k > a.counter);
+    if count_changed {
+        if !cx.o.tolerant {
+            cx.errors.push(format!("ANCHOR-LOST fn {} has {} loops after the rewrite rules, the contract was written for {}", fkey, a.counter, expected_n.unwrap_or(0)));
+        } else {
+            // degraded matching: pair contract loops and actual loops by header fingerprint (same fingerprint: in order)
+            let mut contract: Vec<(usize, String)> = cx.c.hdr_expect.iter().filter(|((f, _), _)| *f == fkey).map(|((_, k), h)| (*k, h.clone())).collect();
+            contract.sort();
+            let mut used_contract: HashSet<usize> = HashSet::new();
+            let mut unannotated = 0usize;
+            for (ak, _, ah, _) in a.headers.iter() {
+                let cand = contract.iter().find(|(ck, ch)| ch == ah && !used_contract.contains(ck)).map(|(ck, _)| *ck);
+                match cand {
+                    Some(ck) => { used_contract.insert(ck); cx.remap.insert((fkey.clone(), *ak), Some(ck)); }
+                    None => { cx.remap.insert((fkey.clone(), *ak), None); unannotated += 1; }
+                }
+            }
+            let orphans: Vec<usize> = contract.iter().filter(|(ck, _)| !used_contract.contains(ck)).map(|(ck, _)| *ck).collect();
+            cx.degraded.push(format!("{}\tloops\tactual={} expected={} orphan_contract_loops={:?} unannotated_loops={}", fkey, a.counter, expected_n.unwrap_or(0), orphans, unannotated));
+        }
+    }
     let fs = Ident::new(&format!("__vx_fs_{}", fkey), proc_macro2::Span::call_site());
     let (ident, generics, inputs) = (&sig.ident, &sig.generics, &sig.inputs);
     let wc = &sig.generics.where_clause;
@@ -1070,7 +1111,7 @@ fn main() {
     let renames: Vec<(String, String)> = o.renames.iter().map(|s| (s.to_string(), format!("v_{}", s))).collect();
     let contracts = load_contracts(&o.contracts);
     let p = Passes { opdesugar: o.opdesugar, mapcollect: o.mapcollect, extendmap: o.extendmap, tryinto: o.tryinto, renames, log: vec![] };
-    let mut cx = Ctx { o: &o, p, c: &contracts, out: String::new(), found: vec![], loops: vec![], errors: vec![] };
+    let mut cx = Ctx { o: &o, p, c: &contracts, out: String::new(), found: vec![], loops: vec![], errors: vec![], remap: HashMap::new(), degraded: vec![] };
     let wanted = |n: &str| o.names.iter().any(|x| x == n) || o.stubs.iter().any(|x| x == n);
     for item in file.items.iter() {
         if let Some(n) = item_name(item) {
@@ -1109,12 +1150,13 @@ fn main() {
     for n in o.names.iter().chain(o.stubs.iter()).chain(o.items.iter()) {
         if !cx.found.iter().any(|f| f == n) { cx.errors.push(format!("ANCHOR-LOST item or fn '{}' not found in {}", n, o.src)); }
     }
-    println!("{}", substitute(&cx.out, &contracts));
+    println!("{}", substitute(&cx.out, &contracts, &cx.remap));
     if let Some(lp) = &o.log {
         let mut s = String::new();
         for l in cx.p.log.iter() { s.push_str(&format!("RULE\t{}\t{}\n", o.src, l)); }
         for (f, k, hdr, h, line) in cx.loops.iter() { s.push_str(&format!("LOOP\t{}\t{}\t{}\t{}\t{}\t{}\n", o.src, f, k, h, line, hdr)); }
         for e in cx.errors.iter() { s.push_str(&format!("ERROR\t{}\t{}\n", o.src, e)); }
+        for d in cx.degraded.iter() { s.push_str(&format!("DEGRADED\t{}\t{}\n", o.src, d)); }
         use std::io::Write;
         let mut fh = std::fs::OpenOptions::new().create(true).append(true).open(lp).unwrap();
         fh.write_all(s.as_bytes()).unwrap();
